@@ -12,12 +12,14 @@ Inductive zone :=
 | ZUtc (id : Z)
 | ZOffset (id : Z) (name : Z) (off : Z)          (* _name, _offset *)
 | ZLocal (id : Z) (std dst : Z) (name0 : Z)      (* _std_offset, _dst_offset, _tznames[0] *)
-| ZRange (id : Z) (sub : Z) (fields : Z)         (* tzrange (sub=0) / tzstr (sub=1); the six compared fields *)
-| ZFile (id : Z) (sub : Z) (data : Z)            (* tz.tzfile / zoneinfo.tzfile; (_trans_list, _trans_idx, _ttinfo_list) *)
+| ZRange (id : Z) (sub : Z) (sa da so dof sd ed : Z)
+    (* tzrange (sub=0) / tzstr (sub=1); _std_abbr _dst_abbr _std_offset _dst_offset _start_delta _end_delta,
+       each attribute value abstracted to the number of its ==-class *)
+| ZFile (id : Z) (sub : Z) (fl fi ft : Z)        (* tz.tzfile / zoneinfo.tzfile; _trans_list _trans_idx _ttinfo_list *)
 | ZIcal (id : Z).
 
 Definition zid (z : zone) : Z :=
-  match z with ZUtc i | ZOffset i _ _ | ZLocal i _ _ _ | ZRange i _ _ | ZFile i _ _ | ZIcal i => i end.
+  match z with ZUtc i | ZOffset i _ _ | ZLocal i _ _ _ | ZRange i _ _ _ _ _ _ _ | ZFile i _ _ _ _ | ZIcal i => i end.
 
 (* name codes fixed by the harness: 1 = 'UTC', 2 = 'GMT' *)
 Definition utc_name (n : Z) : bool := (n =? 1) || (n =? 2).
@@ -44,14 +46,15 @@ Definition meth_eq (self other : zone) : option bool :=
       | ZOffset _ nm off => Some (negb (hasdst std dst) && (n0 =? nm) && (std =? off))
       | _ => None
       end
-  | ZRange _ _ fl =>
+  | ZRange _ _ sa da so dof sd ed =>
       match other with
-      | ZRange _ _ fl' => Some (fl =? fl')
+      | ZRange _ _ sa' da' so' dof' sd' ed' =>
+          Some ((sa =? sa') && (da =? da') && (so =? so') && (dof =? dof') && (sd =? sd') && (ed =? ed'))
       | _ => None
       end
-  | ZFile _ _ d =>
+  | ZFile _ _ fl fi ft =>
       match other with
-      | ZFile _ _ d' => Some (d =? d')
+      | ZFile _ _ fl' fi' ft' => Some ((fl =? fl') && (fi =? fi') && (ft =? ft'))
       | _ => None
       end
   | ZIcal _ => None
@@ -67,6 +70,9 @@ Definition zone_eq (a b : zone) : bool :=
       end
   end.
 
-Definition zone_of (c a x y z : Z) : zone :=
+(* `a != b` is `not (a == b)` in every class *)
+Definition zone_ne (a b : zone) : bool := negb (zone_eq a b).
+
+Definition zone_of (c a x y z u v w t : Z) : zone :=
   if c =? 0 then ZUtc a else if c =? 1 then ZOffset a x y else if c =? 2 then ZLocal a x y z
-  else if c =? 3 then ZRange a x y else if c =? 4 then ZFile a x y else ZIcal a.
+  else if c =? 3 then ZRange a x y z u v w t else if c =? 4 then ZFile a x y z u else ZIcal a.
